@@ -115,20 +115,18 @@ class Ev(object):
   def truth(self, e):
     if isinstance(e, ast.BoolOp):
       vals = [self.truth(v) for v in e.values]
+      # Kleene logic (the operands are side-effect free configuration tests)
       if isinstance(e.op, ast.And):
-        # Python short-circuit: first falsy decides
-        for v in vals:
-          if v is False:
-            return False
-          if v is UNKNOWN:
-            return UNKNOWN
-        return True
-      for v in vals:
-        if v is True:
+        if any(v is False for v in vals):
+          return False
+        if all(v is True for v in vals):
           return True
-        if v is UNKNOWN:
-          return UNKNOWN
-      return False
+        return UNKNOWN
+      if any(v is True for v in vals):
+        return True
+      if all(v is False for v in vals):
+        return False
+      return UNKNOWN
     if isinstance(e, ast.UnaryOp) and isinstance(e.op, ast.Not):
       t = self.truth(e.operand)
       return UNKNOWN if t is UNKNOWN else (not t)
